@@ -405,10 +405,17 @@ class World:
     # ------------------------------------------------------------------
     @staticmethod
     def owns(path):
-        return isinstance(path, str) and path.startswith(SIM_ROOT)
+        return isinstance(path, str) and \
+            posixpath.normpath(path).startswith(SIM_ROOT)
+
+    @staticmethod
+    def norm(path):
+        """One file, one name: '/sim/w/./x', '/sim/w//x' are '/sim/w/x'."""
+        return posixpath.normpath(path)
 
     def sim_open(self, path, mode="r", buffering=-1, encoding=None,
                  errors=None, newline=None, closefd=True, opener=None):
+        path = self.norm(path)
         binary = "b" in mode
         writing = any(c in mode for c in "wax+")
         if path in self.dirs:
@@ -468,18 +475,21 @@ class World:
     def exists(self, path):
         if not self.owns(path):
             return os.path.exists(path)
+        path = self.norm(path)
         self.step("stat", path, 0, faultable=False)
         return path in self.fs or path in self.dirs
 
     def isfile(self, path):
         if not self.owns(path):
             return os.path.isfile(path)
+        path = self.norm(path)
         self.step("stat", path, 0, faultable=False)
         return path in self.fs
 
     def access(self, path, mode):
         if not self.owns(path):
             return os.access(path, mode)
+        path = self.norm(path)
         self.step("stat", path, 0, faultable=False)
         if path in self.dirs:
             return True
@@ -496,6 +506,7 @@ class World:
     def remove(self, path):
         if not self.owns(path):
             raise PermissionError(errno.EACCES, "outside the simulation", path)
+        path = self.norm(path)
         act = self.step("remove", path, 0)
         if path in self.dirs:
             raise IsADirectoryError(errno.EISDIR, "Is a directory", path)
@@ -508,6 +519,8 @@ class World:
 
     def copy2(self, src, dst):
         """shutil.copy2: open src, open dst (truncating), pump, copystat."""
+        src = self.norm(src)
+        dst = self.norm(dst)
         if src == dst:
             raise shutil.SameFileError(
                 "{!r} and {!r} are the same file".format(src, dst))
@@ -622,8 +635,15 @@ def _patched(world, tool_mod, argv0, argv):
         setattr_(sys, "stdout", stdout)
         setattr_(sys, "stderr", stderr)
         setattr_(sys, "argv", [argv0] + list(argv))
+        saved_home = os.environ.get("HOME")
+        os.environ["HOME"] = "/sim/w"       # "~" expands into the simulation
         yield stdout, stderr
     finally:
+        if "saved_home" in locals():
+            if saved_home is None:
+                os.environ.pop("HOME", None)
+            else:
+                os.environ["HOME"] = saved_home
         for obj, name, old in reversed(saved):
             if old is _MISSING:
                 delattr(obj, name)
@@ -704,3 +724,25 @@ def run_tool(world, tool, argv):
                  + ([world.interrupt_fault] if world.interrupt_fault else [])
                  if f.fired]
     return res
+
+
+@contextmanager
+def fs_visible(files):
+    """
+    Make simulated files readable through the built-in ``open`` (and nothing
+    else): lets a *reference* computation that runs outside any tool -- e.g.
+    ``MergerConfig`` reading its INI file through configparser -- see the same
+    bytes the tool saw.
+    """
+    world = World(files)
+
+    def routed_open(file, mode="r", *args, **kwargs):
+        if World.owns(file):
+            return world.sim_open(file, mode, *args, **kwargs)
+        return _REAL_OPEN(file, mode, *args, **kwargs)
+    builtins.open = routed_open
+    try:
+        yield world
+    finally:
+        builtins.open = _REAL_OPEN
+        world.dead = True
